@@ -242,7 +242,7 @@ impl Octahedron {
             b.push_face(3 * i, 3 * i + 1, 3 * i + 2);
             for vi in *vs {
                 let pos = Self::COORDS[Self::VERTS[vi].0];
-                b.push_vert(pos, Self::NORMS[i]);
+                b.push_vert(pos, Self::NORMS[i].normalize());
             }
         }
         b.build()
